@@ -23,6 +23,7 @@ fn handshake_wire(samples: Vec<handshake::Handshake>) -> WireType {
         }),
         equal: Box::new(|a, b| Ok(eq(&zksync_protobuf::decode::<T>(a)?, &zksync_protobuf::decode::<T>(b)?))),
         samples: samples.iter().map(zksync_protobuf::encode).collect(),
+        sample_lossless: Box::new(move |i| Ok(eq(&zksync_protobuf::decode::<T>(&zksync_protobuf::encode(&samples[i]))?, &samples[i]))),
     }
 }
 
